@@ -413,7 +413,7 @@ def handle_violations(prop, batch, exes, shrink=None, expect_fn=None, key_fn=Non
     seen = set()
     batch.violations.sort(key=lambda t: t[0]["index"])
     for run, res, v in batch.violations:
-        k0 = key_fn(run, v) if key_fn else "%s:%s" % (run["exe"][0], v[0])
+        k0 = key_fn(run, v, res) if key_fn else "%s:%s" % (run["exe"][0], v[0])
         if k0 in seen or len(seen) >= 6:
             continue
         seen.add(k0)
@@ -458,7 +458,7 @@ def handle_violations(prop, batch, exes, shrink=None, expect_fn=None, key_fn=Non
             if cv is None or cv[0] != v[0]:
                 harness_error("violation %s of %s did not reproduce on replay (run index %d)" % (v[0], prop, run["index"]))
         path = save_replay(prop, replay_obj(prop, mrun, cres, cv, minimised=(mrun is not run)))
-        key = key_fn(mrun, cv) if key_fn else "%s:%s" % (mrun["exe"][0], cv[0])
+        key = key_fn(mrun, cv, cres) if key_fn else "%s:%s" % (mrun["exe"][0], cv[0])
         k = match_known(prop, key)
         if k:
             report_known(prop, k["what"])
